@@ -157,8 +157,15 @@ def gen_history(rng, style):
         insts.append(new)
         return len(insts) - 1
 
+    label = style
+    if style == "rejected":
+        style = rng.choice(["flat", "chain", "chain"])
+    elif style == "collide":
+        style = "explicit"
     explicit = style in ("explicit", "mixed")
-    Lpre = rng.choice([8, 12, 16, 16, 24, 32, 34]) if explicit else rng.choice([4, 6, 8, 8, 12, 16, 24, 32, 34])
+    pools = {"a": sorted(rng.sample([1, 2, 3], rng.randint(1, 2))), "b": sorted(rng.sample([1, 2, 3], rng.randint(1, 2)))}
+    used_pools = set()
+    Lpre = rng.choice([16, 24, 32, 34]) if label == "collide" else rng.choice([8, 12, 16, 16, 24, 32, 34]) if explicit else rng.choice([4, 6, 8, 8, 12, 16, 24, 32, 34])
     names = list(range(12))
     tags = [1, 2, 3]
     target = rng.randint(1, 4) if style == "flat" else rng.randint(3, 9 if explicit else 14)
@@ -191,6 +198,16 @@ def gen_history(rng, style):
         return [x for x in names if not any(f["name"] == x and compatible(f["cond"], cond) and compatible(cond, f["cond"])
                                             for f in fields)]
 
+    def tag_choice():
+        """tags and the form in which they are handed over; one set object per pool is reused across calls"""
+        r = rng.random()
+        if r < 0.3:
+            k = rng.choice(["a", "b"])
+            used_pools.add(k)
+            return list(pools[k]), "shared:" + k
+        tg = [t for t in tags if rng.random() < 0.22]
+        return tg, rng.choice(["list", "list", "str", "none", "tuple", "frozenset", "set"])
+
     def add(n, name, depthcond):
         if not shadow_add(name, insts[n], False) and rng.random() < 0.93:
             return False
@@ -202,8 +219,11 @@ def gen_history(rng, style):
                 if rng.random() < 0.93 else rng.choice([0, 13, 30, 34])
         if explicit and rng.random() < 0.45:
             start = rng.randint(0, max(0, Lpre - 1)) if rng.random() < 0.93 else rng.choice([-1, Lpre, Lpre + 2])
-        tg = [t for t in tags if rng.random() < 0.18]
-        ops.append(["add", n, name, length, start, tg])
+        tg, mode = tag_choice()
+        return add_exact(n, name, length, start, tg, mode)
+
+    def add_exact(n, name, length, start, tg, mode="list"):
+        ops.append(["add", n, name, length, start, tg, mode])
         cond = dict(insts[n])
         ok = not (length is not None and length <= 0)
         if any(f["name"] == name and compatible(f["cond"], cond) and compatible(cond, f["cond"]) for f in fields):
@@ -340,10 +360,62 @@ def gen_history(rng, style):
             ops.append(["value", n, None, None])
             ops.append(["mask", n, None, None])
 
+    def rejected_calls(count):
+        """calls that must be refused although part of what they carry is valid: a large value for an
+        automatically sized field together with an out-of-range / negative value or an unknown field, in
+        either keyword order; nothing of a refused call may influence the layout"""
+        for _ in range(count):
+            n = rng.randrange(len(insts))
+            fv = insts[n]
+            free = [f for f in fields if present(f, fv) and f["name"] not in fv]
+            autos = [f for f in free if f["length"] is None]
+            if not autos:
+                n, fv = 0, insts[0]
+                free = [f for f in fields if present(f, fv)]
+                autos = [f for f in free if f["length"] is None]
+                if not autos:
+                    return
+            a = rng.choice(autos)
+            big = rng.choice([9, 37, 200, 1000])
+            fixed = [f for f in free if f["length"] is not None and f is not a]
+            r = rng.random()
+            if fixed and r < 0.5:
+                b = rng.choice(fixed)
+                bad = (b["name"], 1 << b["length"])
+            elif free and len(free) > 1 and r < 0.75:
+                b = rng.choice([f for f in free if f is not a])
+                bad = (b["name"], -1)
+            else:
+                bad = (99, 1)
+            kw = {a["name"]: big, bad[0]: bad[1]} if rng.random() < 0.75 else {bad[0]: bad[1], a["name"]: big}
+            if rng.random() < 0.3:
+                others = [f for f in free if f["name"] not in kw]
+                if others:
+                    kw[rng.choice(others)["name"]] = 0
+            call(n, kw)
+
+    if label == "collide":
+        # an automatically sized field anchored at bit 0 that runs into a co-present field only once it is sized
+        s0 = rng.randint(1, 5)
+        add_exact(0, 0, None, 0, *tag_choice())
+        if rng.random() < 0.5:
+            add_exact(0, 1, rng.randint(1, 3), s0, *tag_choice())
+        else:
+            add_exact(0, 2, 1, Lpre - 1, [], "list")
+            m = call(0, {2: rng.randint(0, 1)})
+            if m is not None:
+                add_exact(m, 1, rng.randint(1, 3), s0, *tag_choice())
+        call(0, {0: rng.randint(1 << s0, (1 << (s0 + 2)) - 1)})
+        target = rng.randint(0, 3)
     define_some(target)
     if rng.random() < 0.3:
         queries(2)
     give_values(rng.randint(0, 8))
+    if label == "rejected":
+        rejected_calls(rng.randint(1, 3))
+        give_values(rng.randint(0, 2))
+    elif rng.random() < 0.15:
+        rejected_calls(1)
     ops.append(["assign", rng.randrange(len(insts))])
     assigned[0] = True
     for f in fields:
@@ -358,13 +430,20 @@ def gen_history(rng, style):
             f["fixed"] = True
         queries(rng.randint(1, 4))
         complete_instances(1)
-    return ops, Lpre, fields
+    pre = []
+    if used_pools and rng.random() < 0.4:
+        # another BitField of the same process that uses the same tag-set objects and tags a child differently
+        k = sorted(used_pools)[0]
+        other = [t for t in [1, 2, 3] if t not in pools[k]]
+        pre = [["add", 0, 0, 1, None, list(pools[k]), "shared:" + k], ["call", 0, [[0, 0]]],
+               ["add", 1, 1, 1, None, other[:1], "list"]]
+    return ops, Lpre, fields, pre
 
 
 def choose_length(rng, ops, Lpre, style):
     """Bit-field length: for histories without explicit positions mostly an exact fill of what the
     defined fields need (computed from the flat view assuming every add succeeds)."""
-    if style in ("explicit", "mixed"):
+    if style in ("explicit", "mixed", "collide"):
         return Lpre
     fl = Flat(0)
     for k, op in enumerate(ops):
@@ -393,6 +472,8 @@ def choose_length(rng, ops, Lpre, style):
             break
     w = fl.max_copresent_width()
     r = rng.random()
+    if style == "rejected":
+        r *= 0.6
     if r < 0.5:
         L = w
     elif r < 0.65:
@@ -406,13 +487,16 @@ def choose_length(rng, ops, Lpre, style):
     return max(1, min(L, 40))
 
 
-STYLES = ["flat", "chain", "general", "general", "explicit", "explicit", "mixed", "incremental"]
+STYLES = ["flat", "chain", "general", "general", "explicit", "explicit", "mixed", "incremental", "rejected", "collide"]
 
 
 def gen_case(rng, idx):
     style = STYLES[idx % len(STYLES)]
-    ops, Lpre, _ = gen_history(rng, style)
-    return dict(L=choose_length(rng, ops, Lpre, style), ops=ops, style=style)
+    ops, Lpre, _, pre = gen_history(rng, style)
+    c = dict(L=choose_length(rng, ops, Lpre, style), ops=ops, style=style)
+    if pre:
+        c["pre_ops"] = pre
+    return c
 
 
 # ====================================================================== Coq literals
@@ -510,6 +594,10 @@ def oracle(c, res, report):
         fs = [f for f in fl.fields if f["k"] in pos and (only is None or f in only)]
         for f in fs:
             s, l = pos[f["k"]]
+            if f["start"] is not None and s != f["start"]:
+                report("explicit-position-moved", "%s: field %d %r was defined with start_at=%d but is reported at bit %d "
+                       "(an explicit definition that collides must be refused, not relocated)"
+                       % (where, f["name"], f["cond"], f["start"], s))
             if s < 0 or l < 1 or s + l > L:
                 report("out-of-range", "%s: field %d %r at [%d,%d) is not inside the %d-bit bit field"
                        % (where, f["name"], f["cond"], s, s + l, L))
